@@ -115,6 +115,31 @@ func vhC31HTTPDateFastPath() {
 	}
 }
 
+// vhC31HTTPDateCalendar: the calendar rules of the fast parser against the
+// interpreted time.Parse, on "29 Feb", "30 Feb", "31 Apr" and "31 Dec" of
+// century years CC00 and of years 20YY, for every value of the two free digits: the
+// fast path accepts exactly the dates that exist, with the same instant.
+func vhC31HTTPDateCalendar() {
+	day := [...]string{"29 Feb", "30 Feb", "31 Apr", "31 Dec", "28 Feb"}[vChoose("day", 5)]
+	// (digits as choices: calendar arithmetic on symbolic years is division by
+	// constants, which the solvers do not decide in useful time)
+	d := []byte{byte('0' + vChoose("tens", 10)), byte('0' + vChoose("units", 10))}
+	year := string(d) + "00"
+	if vBool("ordinaryYear") {
+		year = "20" + string(d)
+	}
+	b := []byte("Mon, " + day + " " + year + " 12:00:00 GMT")
+	fast, ok := parseRFC1123DateGMT(b)
+	std, err := time.Parse(http.TimeFormat, string(b))
+	vAssert("fast-path-accepts-only-what-time-parse-accepts", !ok || err == nil)
+	if ok && err == nil {
+		vAssert("fast-path-returns-the-same-instant", fast.Unix() == std.Unix())
+	}
+	// and the public parser agrees with time.Parse on acceptance
+	_, perr := ParseHTTPDate(b)
+	vAssert("ParseHTTPDate-accepts-exactly-the-dates-that-exist", (perr == nil) == (err == nil))
+}
+
 var c31Times = [...]time.Time{
 	time.Date(1, 1, 1, 0, 0, 0, 0, time.UTC),
 	time.Date(1970, 1, 1, 0, 0, 0, 999, time.UTC),
